@@ -101,6 +101,10 @@ func symRequest(t *verifTree, faults bool) *verifReq {
 	}
 	r.pi = vrt.Choose("path", len(t.paths))
 	r.path = t.paths[r.pi]
+	if r.pi != 0 && r.method != "COPY" && r.method != "MOVE" && vrt.Choose("trailing-slash", 2) == 1 {
+		// the same resource addressed with a trailing slash
+		r.path += "/"
+	}
 	switch r.method {
 	case "PUT":
 		r.body = vrt.Choose("body", 2)
@@ -137,7 +141,7 @@ func (r *verifReq) httpRequest(t *verifTree) *http.Request {
 	case 1:
 		hr.Header.Set("Destination", "http://dav.example/%zz")
 	case 2:
-		hr.Header.Set("Destination", "http://dav.example"+t.paths[r.di])
+		hr.Header.Set("Destination", (&url.URL{Scheme: "http", Host: "dav.example", Path: t.paths[r.di]}).String())
 	}
 	if r.hasDepth {
 		hr.Header["Depth"] = []string{r.depth}
@@ -355,6 +359,31 @@ func verifUniverse() []string {
 	return verifUniverseQuick
 }
 
+// verifSpellings: what the member name "b" of the universe is spelled like
+// (parameter "spellings" = how many of them are explored): a plain name, a
+// name that begins with two dots (legal, and not a dot-dot segment), a name
+// with a blank and the characters that need escaping in URLs.
+var verifSpellings = []string{"b", "..b", "b c%41#?"}
+
+func verifSpell(paths []string) []string {
+	n := vrt.Param("spellings", 1)
+	if n <= 1 {
+		return paths
+	}
+	name := verifSpellings[vrt.Choose("name-spelling", n)]
+	out := make([]string, len(paths))
+	for i, p := range paths {
+		segs := strings.Split(p, "/")
+		for j := range segs {
+			if segs[j] == "b" {
+				segs[j] = name
+			}
+		}
+		out[i] = strings.Join(segs, "/")
+	}
+	return out
+}
+
 // forbidden targets that would legitimately remove or replace the served root
 func rootExcluded(r *verifReq) bool {
 	switch r.method {
@@ -386,6 +415,7 @@ type verifRun struct {
 func runStep(faults bool, conditional bool) *verifRun {
 	internal.VerifResetWire()
 	t := symTree(verifUniverse())
+	t.paths = verifSpell(t.paths)
 	req := symRequest(t, faults)
 	vrt.Assume(!rootExcluded(req))
 	run := &verifRun{t: t, req: req, before: t.copy()}
